@@ -36,6 +36,10 @@ pub enum Op {
     Many(Vec<u8>),
     Opt(Option<u8>),
     UseIt(u32),
+    /// `maybe-use(option<borrow<in-res>>)`
+    MaybeUse(Option<u32>),
+    /// `either(result<borrow<in-res>, u32>)`: `Err(())` passes the index of a live bystander handle
+    Either(Result<u32, ()>),
     Eat(u32),
     EatMany(Vec<u32>),
 }
@@ -56,6 +60,8 @@ pub fn op() -> impl Strategy<Value = Op> {
         2 => proptest::collection::vec(any::<u8>(), 0..4).prop_map(Op::Many),
         1 => proptest::option::of(any::<u8>()).prop_map(Op::Opt),
         1 => val().prop_map(Op::UseIt),
+        1 => proptest::option::of(val()).prop_map(Op::MaybeUse),
+        1 => prop_oneof![val().prop_map(Ok), Just(Err(()))].prop_map(Op::Either),
         1 => val().prop_map(Op::Eat),
         1 => proptest::collection::vec(val(), 0..4).prop_map(Op::EatMany),
     ]
@@ -72,7 +78,7 @@ fn snake(n: &str) -> String {
 pub fn wit(f: &Flavour) -> String {
     let n = NAMES[f.name];
     format!(
-        "package v:w;\ninterface dep {{ resource in-res {{ constructor(x: u32); get: func() -> u32; }} }}\ninterface api {{\n  use dep.{{in-res}};\n  resource {n} {{\n    constructor(x: u32);\n    get: func() -> u32;\n    merge: static func(a: {n}, b: borrow<{n}>) -> {n};\n  }}\n  take: func(a: {n}) -> u32;\n  peek: func(a: borrow<{n}>) -> u32;\n  make: func(x: u32) -> {n};\n  many: func(l: list<{n}>) -> u32;\n  opt: func(a: option<{n}>) -> u32;\n  use-it: func(b: borrow<in-res>) -> u32;\n  eat: func(a: in-res) -> u32;\n  eat-many: func(a: list<in-res>) -> u32;\n}}\nworld w {{ export api; }}\n"
+        "package v:w;\ninterface dep {{ resource in-res {{ constructor(x: u32); get: func() -> u32; }} }}\ninterface api {{\n  use dep.{{in-res}};\n  resource {n} {{\n    constructor(x: u32);\n    get: func() -> u32;\n    merge: static func(a: {n}, b: borrow<{n}>) -> {n};\n  }}\n  take: func(a: {n}) -> u32;\n  peek: func(a: borrow<{n}>) -> u32;\n  make: func(x: u32) -> {n};\n  many: func(l: list<{n}>) -> u32;\n  opt: func(a: option<{n}>) -> u32;\n  use-it: func(b: borrow<in-res>) -> u32;\n  maybe-use: func(b: option<borrow<in-res>>) -> u32;\n  either: func(c: result<borrow<in-res>, u32>) -> u32;\n  eat: func(a: in-res) -> u32;\n  eat-many: func(a: list<in-res>) -> u32;\n}}\nworld w {{ export api; }}\n"
     )
 }
 
@@ -155,6 +161,19 @@ uint32_t exports_v_w_api_use_it(exports_v_w_api_borrow_in_res_t b) {
 #endif
   return x;
 }
+static uint32_t use_borrow(exports_v_w_api_borrow_in_res_t b) {
+  uint32_t x = v_w_dep_method_in_res_get(b) + 3;
+#ifndef AUTODROP
+  v_w_dep_in_res_drop_borrow(b);
+#endif
+  return x;
+}
+#ifdef NOSIG
+uint32_t exports_v_w_api_maybe_use(exports_v_w_api_option_borrow_in_res_t *b) { return b->is_some ? use_borrow(b->val) : 9; }
+#else
+uint32_t exports_v_w_api_maybe_use(exports_v_w_api_borrow_in_res_t *maybe_b) { return maybe_b ? use_borrow(*maybe_b) : 9; }
+#endif
+uint32_t exports_v_w_api_either(exports_v_w_api_result_borrow_in_res_u32_t *c) { return c->is_err ? 11 : use_borrow(c->val.ok); }
 uint32_t exports_v_w_api_eat(exports_v_w_api_own_in_res_t a) {
   uint32_t x = v_w_dep_method_in_res_get(v_w_dep_borrow_in_res(a)) + 2;
   v_w_dep_in_res_drop_own(a);
@@ -225,6 +244,23 @@ int main(void) {
       }
       case 'o': if (n == 0) r = (uint32_t)X_opt(0, 0); else { int32_t h = lower_own(a[0]); r = (uint32_t)X_opt(1, h); consumed(h, "opt"); } break;
       case 'u': { int32_t h = itab_add((uint32_t)a[0]); r = (uint32_t)X_useit(h, 0); if (itab_ok(h)) printf("E borrowed-handle-of-the-imported-resource-not-released-before-return\n"); break; }
+      case 'U': {
+        if (n == 0) { r = (uint32_t)X_maybeuse(0, 0); break; }
+        int32_t h = itab_add((uint32_t)a[0]); r = (uint32_t)X_maybeuse(1, h);
+        if (itab_ok(h)) printf("E borrowed-handle-of-the-imported-resource-not-released-before-return\n");
+        break;
+      }
+      case 'e': {
+        if (n == 0) {
+          /* the error payload is a number that happens to be the index of a live handle */
+          int32_t by = itab_add(77); r = (uint32_t)X_either(1, by);
+          if (!itab_ok(by)) printf("E unrelated-live-handle-of-the-imported-resource-was-dropped\n");
+          itab[by].alive = 0; break;
+        }
+        int32_t h = itab_add((uint32_t)a[0]); r = (uint32_t)X_either(0, h);
+        if (itab_ok(h)) printf("E borrowed-handle-of-the-imported-resource-not-released-before-return\n");
+        break;
+      }
       case 'E': { int32_t h = itab_add((uint32_t)a[0]); r = (uint32_t)X_eat(h, 0); if (itab_ok(h)) printf("E harness-eat-did-not-drop\n"); break; }
       case 'A': {
         int k = (int)a[0]; int32_t *buf = k ? cabi_realloc(0, 0, 4, 4 * k) : (int32_t *)(intptr_t)4;
@@ -304,6 +340,8 @@ pub fn build(dir: &Path, f: &Flavour) -> Result<Built, (String, String)> {
         ("many", "v:w/api#many".to_string()),
         ("opt", "v:w/api#opt".to_string()),
         ("useit", "v:w/api#use-it".to_string()),
+        ("maybeuse", "v:w/api#maybe-use".to_string()),
+        ("either", "v:w/api#either".to_string()),
         ("eat", "v:w/api#eat".to_string()),
         ("eatmany", "v:w/api#eat-many".to_string()),
     ];
@@ -343,7 +381,7 @@ pub fn build(dir: &Path, f: &Flavour) -> Result<Built, (String, String)> {
     std::fs::write(dir.join("prog.c"), &prog).unwrap();
     let cc = |extra: &[&str], src: &str, obj: &str| {
         std::process::Command::new("clang")
-            .args(["-c", "-O1", "-w", "-Werror=implicit-function-declaration", "-Werror=incompatible-pointer-types", "-Werror=int-conversion", "-I"])
+            .args(["-c", "-O1", "-fstack-protector-all", "-w", "-Werror=implicit-function-declaration", "-Werror=incompatible-pointer-types", "-Werror=int-conversion", "-I"])
             .arg(dir)
             .args(extra)
             .arg(dir.join(src))
@@ -454,6 +492,10 @@ pub fn plan(ops: &[Op]) -> Vec<(String, u32, Vec<u32>)> {
                 }
             }
             Op::UseIt(x) => out.push((format!("u {x}"), x.wrapping_add(1), vec![])),
+            Op::MaybeUse(None) => out.push(("U".to_string(), 9, vec![])),
+            Op::MaybeUse(Some(x)) => out.push((format!("U {x}"), x.wrapping_add(3), vec![])),
+            Op::Either(Err(())) => out.push(("e".to_string(), 11, vec![])),
+            Op::Either(Ok(x)) => out.push((format!("e {x}"), x.wrapping_add(3), vec![])),
             Op::Eat(x) => out.push((format!("E {x}"), x.wrapping_add(2), vec![])),
             Op::EatMany(xs) => {
                 let sum = xs.iter().fold(1u32, |a, v| a.wrapping_mul(31).wrapping_add(*v));
